@@ -263,12 +263,12 @@ class Check:
         return groups
 
     # -- step 3: trace validation
-    def validate(self, trace_tla, files, constants, invariants, defs="", properties=(), timeout=1500, label="", max_iter=12, dfs=False):
+    def validate(self, trace_tla, files, constants, invariants, defs="", properties=(), timeout=1500, label="", max_iter=4, dfs=False):
         return self.validate_many(trace_tla, [{"label": label, "files": files, "constants": constants, "defs": defs,
                                                "invariants": invariants, "properties": properties}],
                                   timeout=timeout, max_iter=max_iter, dfs=dfs)
 
-    def validate_many(self, trace_tla, jobs, timeout=1500, max_iter=12, dfs=False):
+    def validate_many(self, trace_tla, jobs, timeout=1500, max_iter=4, dfs=False):
         """Validate shard files against a *_Trace spec, all jobs (constant groups) in one process pool.
         Offending cases are excised and the shard re-validated so that every violating case is reported.
         Returns list of violation dicts."""
